@@ -152,7 +152,8 @@ class C17(Property):
               "dfmt": dfmt, "use_global": bool(gchunk) and
               bool(W.choose("useg", 2)),
               # the deprecated spelling of the channels argument
-              "nch_kw": ch > 1 and W.chance("nchannels-kw", 1, 4)}
+              "nch_kw": ch > 1 and W.chance("nchannels-kw", 1, 4),
+              "rate": W.pick("rate", [None, None, 8000, 22050])}
       if spec["use_global"]:
         spec["chunk_size"] = gchunk
       specs.append(spec)
@@ -440,6 +441,8 @@ class C17(Property):
           kw = {"dfmt": spec["dfmt"]}
           kw["nchannels" if spec.get("nch_kw") else "channels"] = \
             spec["channels"]
+          if spec.get("rate"):
+            kw["rate"] = spec["rate"]
           if not spec.get("use_global"):
             kw["chunk_size"] = spec["chunk_size"]
           ctl["players"].append(None)
@@ -665,8 +668,12 @@ class C17(Property):
       dev_fmt = {1: "f", 2: "i", 8: "h", 16: "b", 32: "B"}.get(
         okw.get("format"))
       dev_ch = okw.get("channels")
+      want_rate = spec.get("rate") or 44100
+      want_dev = 3 if workload.get("api") else None   # fake JACK's default
       if dev_fmt != fmt or dev_ch != ch or not okw.get("output") or \
-         okw.get("frames_per_buffer") != cs:
+         okw.get("frames_per_buffer") != cs or okw.get("input") or \
+         okw.get("rate") != want_rate or \
+         okw.get("output_device_index") != want_dev:
         return V("framing", "device-opened-differently",
                  "player%d asked for dfmt=%r channels=%d chunk_size=%d, the "
                  "device stream was opened with %r"
